@@ -76,8 +76,8 @@ func VerifC10_TickStep() {
 	total := 0
 	for i := 0; i < n; i++ {
 		maxOut := 2
-		if n == 3 && !verifrt.Thorough() {
-			maxOut = 1
+		if n == 3 && !verifrt.Thorough() && i > 0 {
+			maxOut = 1 // quick tier, three ports: only the first port holds up to two messages (to arbitrary destinations)
 		}
 		k := verifrt.Choice("outgoing", maxOut+1)
 		for j := 0; j < k; j++ {
